@@ -555,7 +555,8 @@ func ioCorpus(r *h.Run) {
 func ioDeterministic(r *h.Run) {
 	lens := []int{0, 1, 2, 7, 511, 512, 513, 600}
 	for _, L := range lens {
-		for _, m := range []int64{-5, -1, 0, 1, int64(L) - 1, int64(L), int64(L) + 1, int64(L) + 600, math.MaxInt64} {
+		for mi, m := range []int64{-5, -1, 0, 1, int64(L) - 1, int64(L), int64(L) + 1, int64(L) + 600, math.MaxInt64} {
+			emit := L <= 7 || mi%3 == 1 // large sources: Coq cases for max in {-1, len-1, len+600} only (the oracle sees them all)
 			for _, c := range []int64{-1, 0, 1, 512, int64(L)} {
 				if c != -1 && L > 7 && L != 512 {
 					continue
@@ -564,13 +565,13 @@ func ioDeterministic(r *h.Run) {
 					if style > 0 && (L > 7 && L != 513) {
 						continue
 					}
-					doIO(r, ioScenario{Op: "readatmost", Max: m, Cap: c, SrcLen: L, Salt: L, Reads: chunking(r, L, style)}, true)
+					doIO(r, ioScenario{Op: "readatmost", Max: m, Cap: c, SrcLen: L, Salt: L, Reads: chunking(r, L, style)}, emit || c == 512)
 				}
 			}
-			doIO(r, ioScenario{Op: "copyn", N: m, SrcLen: L, Salt: L + 1}, true)
-			doIO(r, ioScenario{Op: "copyn", N: m, SrcLen: L, Salt: L + 1, RF: true, Reads: chunking(r, L, 2)}, true)
+			doIO(r, ioScenario{Op: "copyn", N: m, SrcLen: L, Salt: L + 1}, emit)
+			doIO(r, ioScenario{Op: "copyn", N: m, SrcLen: L, Salt: L + 1, RF: true, Reads: chunking(r, L, 2)}, emit)
 			doIO(r, ioScenario{Op: "copyn", N: m, SrcLen: L, Salt: L + 1, WT: true, Reads: chunking(r, L, 1)}, L <= 7)
-			doIO(r, ioScenario{Op: "limitedread", Apply: true, Max: m, SrcLen: L, Salt: L + 2}, m >= 0)
+			doIO(r, ioScenario{Op: "limitedread", Apply: true, Max: m, SrcLen: L, Salt: L + 2}, m >= 0 && emit)
 		}
 		doIO(r, ioScenario{Op: "limitedread", Apply: false, SrcLen: L, Salt: L + 2}, true)
 		doIO(r, ioScenario{Op: "readall", SrcLen: L, Salt: L + 3, Reads: chunking(r, L, 2)}, true)
